@@ -248,3 +248,25 @@ text("c04-set-untyped-allowed", "C04", RAW, "        if any(not isinstance(v, Ty
 text("c04-set-null-values", "C04", RAW, "        binds = [VarBind(oid, value) for oid, value in mappings.items()]", "        binds = [VarBind(oid, Null()) for oid, value in mappings.items()]")
 text("c04-getnext-wrong-oid", "C04", RAW, "        result = await self.multigetnext([oid])", "        result = await self.multigetnext([oid, oid])")
 text("c04-s-getnext-guard-stmt", "C04", RAW, "        if not result or isinstance(\n            result[0].value, (NoSuchObject, NoSuchInstance)\n        ):\n            raise NoSuchOID(oid)\n        return result[0]", "        if not result:\n            raise NoSuchOID(oid)\n        if isinstance(result[0].value, (NoSuchObject, NoSuchInstance)):\n            raise NoSuchOID(oid)\n        return result[0]", expect="silent")
+
+# ---------------------------------------------------------------- C05
+ADT = "puresnmp/adt.py"
+text("c05-pdu-swap-status-index", "C05", PDU, "            Integer(self.value.error_status),\n            Integer(self.value.error_index),\n            Sequence(wrapped_varbinds),  # type: ignore\n        ]\n        payload = b\"\".join([bytes(chunk) for chunk in data])\n        return payload", "            Integer(self.value.error_index),\n            Integer(self.value.error_status),\n            Sequence(wrapped_varbinds),  # type: ignore\n        ]\n        payload = b\"\".join([bytes(chunk) for chunk in data])\n        return payload")
+text("c05-varbind-swapped", "C05", PDU, "            Sequence([vb.oid, vb.value]) for vb in self.value.varbinds", "            Sequence([vb.value, vb.oid]) for vb in self.value.varbinds")
+text("c05-varbinds-reversed", "C05", PDU, "            Sequence([vb.oid, vb.value]) for vb in self.value.varbinds", "            Sequence([vb.oid, vb.value]) for vb in reversed(self.value.varbinds)")
+text("c05-default-index-1", "C05", PDU, "    error_status: int = 0\n    error_index: int = 0", "    error_status: int = 0\n    error_index: int = 1")
+text("c05-inform-tag", "C05", PDU, "class InformRequest(PDU):\n    \"\"\"\n    Represents an SNMP Inform request\n    \"\"\"\n\n    TAG = 6", "class InformRequest(PDU):\n    \"\"\"\n    Represents an SNMP Inform request\n    \"\"\"\n\n    TAG = 5")
+text("c05-bulk-swap", "C05", PDU, "            Integer(self.non_repeaters),\n            Integer(self.max_repeaters),", "            Integer(self.max_repeaters),\n            Integer(self.non_repeaters),")
+text("c05-bulk-init-swap", "C05", PDU, "        self.non_repeaters = non_repeaters\n        self.max_repeaters = max_repeaters", "        self.non_repeaters = max_repeaters\n        self.max_repeaters = non_repeaters")
+text("c05-bulk-universal-class", "C05", PDU, "        tinfo = TypeInfo(TypeClass.CONTEXT, TypeNature.CONSTRUCTED, self.TAG)", "        tinfo = TypeInfo(TypeClass.APPLICATION, TypeNature.CONSTRUCTED, self.TAG)")
+text("c05-bulk-length-of-data", "C05", PDU, "        length = encode_length(len(payload))\n        return bytes(tinfo) + length + payload", "        length = encode_length(len(data))\n        return bytes(tinfo) + length + payload")
+text("c05-v2c-version", "C05", "puresnmp_plugins/security/v2c.py", "            [Integer(1), OctetString(credentials.community), message]", "            [Integer(2), OctetString(credentials.community), message]")
+text("c05-header-order", "C05", ADT, "                Integer(self.message_id),\n                Integer(self.message_max_size),", "                Integer(self.message_max_size),\n                Integer(self.message_id),")
+text("c05-flags-bits", "C05", ADT, "        value |= int(self.reportable) << 2\n        value |= int(self.priv) << 1", "        value |= int(self.reportable) << 1\n        value |= int(self.priv) << 2")
+text("c05-scoped-order", "C05", ADT, "                self.context_engine_id,\n                self.context_name,\n                self.data,\n            ]", "                self.context_name,\n                self.context_engine_id,\n                self.data,\n            ]")
+text("c05-usm-boots-time", "C05", USM, "                Integer(self.authoritative_engine_boots),\n                Integer(self.authoritative_engine_time),", "                Integer(self.authoritative_engine_time),\n                Integer(self.authoritative_engine_boots),")
+text("c05-message-secparams-raw", "C05", ADT, "                    OctetString(self.security_parameters),\n                    spdu,", "                    spdu,\n                    OctetString(self.security_parameters),")
+text("c05-v3-model", "C05", V3, "        security_model_id = 3\n        if self.security_model is None:\n            self.security_model = create_sm(security_model_id)\n\n        # We need", "        security_model_id = 2\n        if self.security_model is None:\n            self.security_model = create_sm(3)\n\n        # We need")
+text("c05-v3-context-swapped", "C05", V3, "            OctetString(engine_id), OctetString(context_name), pdu", "            OctetString(context_name), OctetString(engine_id), pdu")
+text("c05-v3-msgid-const", "C05", V3, "        header = HeaderData(\n            request_id,", "        header = HeaderData(\n            0,")
+text("c05-s-pdu-list-inline", "C05", PDU, "        data: List[Type[Any]] = [\n            Integer(self.value.request_id),\n            Integer(self.value.error_status),\n            Integer(self.value.error_index),\n            Sequence(wrapped_varbinds),  # type: ignore\n        ]\n        payload = b\"\".join([bytes(chunk) for chunk in data])\n        return payload", "        fields: List[Type[Any]] = [\n            Integer(self.value.request_id),\n            Integer(self.value.error_status),\n            Integer(self.value.error_index),\n            Sequence(wrapped_varbinds),  # type: ignore\n        ]\n        return b\"\".join([bytes(chunk) for chunk in fields])", expect="silent")
